@@ -2,6 +2,10 @@ import SphericalVerif.Gen.Dispatch
 import SphericalVerif.Model.Assemble
 import SphericalVerif.Model.W3j
 import SphericalVerif.Spec.Orderings
+import SphericalVerif.Model.Sched
+import Driver.GridOps
+import Driver.ModesOps
+import Driver.DiffOps
 /-! Line-protocol driver: one operation per input line, one output line per operation.
     Doubles travel as decimal UInt64 bit patterns.  Compiled (`lake build driver`); imports no Mathlib. -/
 open Model
@@ -114,6 +118,24 @@ def step (line : String) : String :=
     match W3j.clebschGordan (α := Float) j1.toInt! m1.toInt! j2.toInt! m2.toInt! j3.toInt! m3.toInt! with
     | some v => fb v
     | none => "raised"
+  | ["sched", m, priv] =>
+    let meth : Option Model.Sched.Method := match m with
+      | "d" => some .d | "D" => some .D | "sYlm" => some .sYlm | "evaluate-Horner" => some .evaluateHorner
+      | "evaluate-matrix" => some .evaluateMatrix | "rotate-Horner" => some .rotateHorner | "rotate-matrix" => some .rotateMatrix
+      | _ => none
+    match meth with
+    | none => "bad-op"
+    | some meth =>
+      let ws : Model.Sched.WS := if priv == "1" then .private_ 0 else .default
+      let cls (b : Model.Sched.Buf) : String := match b with
+        | .dflt _ => "default-workspace" | .priv _ _ => "private-workspace" | .tables => "table"
+        | .out _ => "other" | .input _ => "other" | .tmp _ => "other"
+      let foot := Model.Sched.callSteps meth 0 ws
+      String.intercalate ";" (foot.map (fun f =>
+        f.kernel ++ ":" ++ String.intercalate "," (((f.reads ++ f.writes).map cls).eraseDups.filter (· ≠ "other")).mergeSort))
+  | "grid" :: rest => (GridOps.step rest).getD "bad-op"
+  | "modes" :: rest => (ModesOps.step rest).getD "bad-op"
+  | "diff" :: rest => (DiffOps.step rest).getD "bad-op"
   | _ => "bad-op"
 
 partial def loop (h : IO.FS.Stream) (out : IO.FS.Stream) : IO Unit := do
